@@ -162,8 +162,18 @@ func (p *poller) addDialer(c *Conn) error {
 	c.mux.Lock()
 	c.epollGen = atomic.AddInt32(&epollGen, 1)
 	p.g.connsUnix[fd] = c
-	c.isWAdded = true
-	err := p.addReadWrite(fd)
+	// Write interest only reports the completion of a pending connect. A connect
+	// that finished at once (unix, udp) has no callback waiting for it: with
+	// write interest armed and nothing to flush, the level-triggered loop would
+	// spin on a writable socket, and the one-shot re-arm would drop the interest
+	// but leave isWAdded set, so that a later backlog never arms it again.
+	c.isWAdded = c.onConnected != nil
+	var err error
+	if c.isWAdded {
+		err = p.addReadWrite(fd)
+	} else {
+		err = p.addRead(fd)
+	}
 	if err != nil {
 		// The caller (DialAsync) returns this error and releases the
 		// connection counter itself: no dial callback and no close notification.
